@@ -243,6 +243,7 @@ func MTxnOpenDBI(txn *lmdb.Txn, name string, flags uint) (lmdb.DBI, error) {
 	d := t.St.find(name)
 	if d == nil {
 		if flags&mCreate == 0 {
+			Debug("opendbi notfound", name)
 			return 0, mErr("mdb_dbi_open", lmdb.NotFound)
 		}
 		if !t.Write {
